@@ -101,6 +101,9 @@ func (k Keeper) RecvPacket(
 	if !found {
 		return errorsmod.Wrap(clienttypes.ErrClientNotFound, fromChain)
 	}
+	if status := targetClient.Status(ctx, k.clientKeeper.ClientStore(ctx, fromChain), k.cdc); status != exported.Active {
+		return errorsmod.Wrapf(clienttypes.ErrClientNotActive, "client (%s) status is %s", fromChain, status)
+	}
 
 	commitment := types.CommitPacket(packet)
 	// verify that the counterparty did commit to sending this packet
@@ -274,6 +277,9 @@ func (k Keeper) AcknowledgePacket(
 	if !found {
 		return errorsmod.Wrap(clienttypes.ErrClientNotFound, fromChain)
 	}
+	if status := clientState.Status(ctx, k.clientKeeper.ClientStore(ctx, fromChain), k.cdc); status != exported.Active {
+		return errorsmod.Wrapf(clienttypes.ErrClientNotActive, "client (%s) status is %s", fromChain, status)
+	}
 
 	ackCommitment := types.CommitAcknowledgement(acknowledgement)
 	if err := clientState.VerifyPacketAcknowledgement(ctx,
@@ -409,6 +415,9 @@ func (k Keeper) RecvCleanPacket(
 
 	if !found {
 		return errorsmod.Wrap(clienttypes.ErrClientNotFound, fromChain)
+	}
+	if status := targetClient.Status(ctx, k.clientKeeper.ClientStore(ctx, fromChain), k.cdc); status != exported.Active {
+		return errorsmod.Wrapf(clienttypes.ErrClientNotActive, "client (%s) status is %s", fromChain, status)
 	}
 
 	if err := targetClient.VerifyPacketCleanCommitment(ctx,
